@@ -6,7 +6,10 @@ import os, json
 from vlib import common as C
 
 PID = 'C16'
-SPEC_SECTIONS = ['vecDir', 'pointOnLine', 'segmentIntersect', 'inPoly3', 'inPoly4']
+SPEC_SECTIONS = ['vecDir', 'pointOnLine', 'segmentIntersect', 'inPoly3', 'inPoly4',
+                 'segmentIntersectPoint_code', 'rayIntersectPoint_code', 'colinear', 'inBetween', 'inValidRegion', 'cornerSide', 'segmentShapeIntersect', 'inPolyGen3', 'inPolyGen4']
+# spec sections that are defined only on part of the grid ('?' elsewhere) -> the C++ section they are compared with
+SPEC_MASKED_SECTIONS = {'inPolyGen3_region': 'inPolyGen3', 'inPolyGen4_region': 'inPolyGen4'}
 
 
 def parse_sections(txt):
@@ -51,6 +54,24 @@ def decode(section, idx, G, GP):
     return {'fn': section, 'index': idx}
 
 
+SPEC_NUMERIC_SECTIONS = ['segmentIntersectPoint_xy', 'manhattanDist', 'projection_xy']
+
+
+def numeric_diff(s, a, b):
+    """compare two numeric sections (lists of lines); returns None or a dict describing the first disagreement"""
+    if len(a) != len(b):
+        return {'fn': s, 'what': 'different number of results', 'cpp': len(a), 'other': len(b)}
+    for la, lb in zip(a, b):
+        fa, fb = la.split(), lb.split()
+        if s.endswith('_xy') and fa[:-2] != fb[:-2]:
+            return {'fn': s, 'cpp': la, 'other': lb}
+        va = [float(x) for x in fa[-2:]] if s.endswith('_xy') else [float(fa[0])]
+        vb = [float(x) for x in fb[-2:]] if s.endswith('_xy') else [float(fb[0])]
+        if any(abs(x - y) > 1e-9 * max(1, abs(x)) for x, y in zip(va, vb)):
+            return {'fn': s, 'cpp': la, 'other': lb}
+    return None
+
+
 def first_diff(a, b):
     if len(a) != len(b):
         return min(len(a), len(b))
@@ -58,6 +79,225 @@ def first_diff(a, b):
         if a[i] != b[i]:
             return i
     return None
+
+
+# ------------------------------------------------------------------ random stream (larger integer coordinates)
+LIM = 1 << 20
+RAND_POS = ['vecDir', 'pointOnLine', 'colinear', 'inBetween', 'segmentIntersect', 'segmentShapeIntersect(seen=0)',
+            'segmentShapeIntersect(seen=1)', 'inValidRegion(ignore=0)', 'inValidRegion(ignore=1)', 'cornerSide',
+            'segmentIntersectPoint code', 'rayIntersectPoint code',
+            'inPoly(q=a,border=0)', 'inPoly(q=q,border=0)', 'inPoly(q=d,border=0)',
+            'inPoly(q=a,border=1)', 'inPoly(q=q,border=1)', 'inPoly(q=d,border=1)',
+            'inPolyGen(q=a)', 'inPolyGen(q=q)', 'inPolyGen(q=d)']
+RAND_NUM = ['segmentIntersectPoint x', 'segmentIntersectPoint y', 'rayIntersectPoint x', 'rayIntersectPoint y',
+            'manhattanDist(a,b)']
+
+
+def _embed(rng, pts):
+    """scale + translate a small configuration so that degeneracies are kept but magnitudes reach 2^20"""
+    m = max(1, max(abs(v) for p in pts for v in p))
+    kmax = max(1, (LIM // 2) // m)
+    k = 1 if rng.chance(1, 4) else 1 + rng.below(kmax)
+    room = LIM - k * m
+    tx, ty = rng.range(-room, room), rng.range(-room, room)
+    return [(k * x + tx, k * y + ty) for (x, y) in pts]
+
+
+def gen_tuple(rng):
+    """one structured tuple: (kind, a, b, c, d, q)"""
+    R = lambda n: rng.range(-n, n)
+    kind = rng.choice(['generic', 'small', 'collinear3', 'collinear4', 'shared_endpoint', 'touch_T', 'zero_length',
+                       'axis_parallel', 'proper_cross', 'rect_query', 'convex_quad_query', 'near_miss'])
+    q = None
+    if kind == 'generic':
+        a, b, c, d = [(R(LIM), R(LIM)) for _ in range(4)]
+    elif kind == 'small':
+        a, b, c, d = [(R(2), R(2)) for _ in range(4)]
+        if rng.chance(1, 2):
+            a, b, c, d = _embed(rng, [a, b, c, d])
+    elif kind in ('collinear3', 'collinear4'):
+        dx, dy = rng.choice([(R(40), R(40)), (0, R(40)), (R(40), 0), (1, 1), (1, -1)])
+        if dx == 0 and dy == 0:
+            dx = 1
+        ms = [R(12) for _ in range(4)]
+        pts = [(m * dx, m * dy) for m in ms]
+        if kind == 'collinear3':
+            pts[3] = (R(500), R(500))
+        a, b, c, d = _embed(rng, pts)
+    elif kind == 'shared_endpoint':
+        a, b, c, d = [(R(LIM), R(LIM)) for _ in range(4)]
+        w = rng.below(5)
+        if w == 0: c = a
+        elif w == 1: c = b
+        elif w == 2: d = a
+        elif w == 3: d = b
+        else: c, d = a, b
+    elif kind == 'touch_T':
+        dx, dy = rng.choice([(R(30), R(30)), (0, 1 + rng.below(30)), (1 + rng.below(30), 0)])
+        if dx == 0 and dy == 0:
+            dy = 1
+        m1, m2 = -(1 + rng.below(9)), 1 + rng.below(9)
+        seg = [(m1 * dx, m1 * dy), (m2 * dx, m2 * dy)]
+        tip, other = (0, 0), (R(300), R(300))
+        w = rng.below(4)
+        pts = [seg[0], seg[1], tip, other] if w == 0 else [seg[0], seg[1], other, tip] if w == 1 else \
+              [tip, other, seg[0], seg[1]] if w == 2 else [other, tip, seg[0], seg[1]]
+        a, b, c, d = _embed(rng, pts)
+    elif kind == 'zero_length':
+        a, b, c, d = [(R(6), R(6)) for _ in range(4)]
+        w = rng.below(4)
+        if w == 0: b = a
+        elif w == 1: d = c
+        elif w == 2: b = a; d = c
+        else: b = a; c = (a[0] - R(3), a[1]); d = (a[0] + R(3), a[1])
+        a, b, c, d = _embed(rng, [a, b, c, d])
+    elif kind == 'axis_parallel':
+        x0, x1, y0, y1 = R(5), R(5), R(5), R(5)
+        xs, ys0, ys1 = R(5), R(5), R(5)
+        if rng.chance(1, 2):
+            pts = [(x0, y0), (x1, y0), (xs, ys0), (xs, ys1)]      # horizontal vs vertical
+        else:
+            pts = [(x0, y0), (x1, y0), (xs, y0 if rng.chance(1, 2) else ys0), (R(5), y0 if rng.chance(1, 2) else ys0)]
+        if rng.chance(1, 2):
+            pts = [(y, x) for (x, y) in pts]
+        a, b, c, d = _embed(rng, pts)
+    elif kind == 'proper_cross':
+        ux, uy, vx, vy = R(30), R(30), R(30), R(30)
+        m = [1 + rng.below(8) for _ in range(4)]
+        pts = [(-m[0] * ux, -m[0] * uy), (m[1] * ux, m[1] * uy), (-m[2] * vx, -m[2] * vy), (m[3] * vx, m[3] * vy)]
+        a, b, c, d = _embed(rng, pts)
+    elif kind == 'near_miss':
+        # c is one unit off the segment ab / off its end
+        dx, dy = R(30), R(30)
+        m2 = 1 + rng.below(9)
+        t = rng.range(-1, m2 + 1)
+        off = rng.choice([(0, 1), (1, 0), (0, -1), (-1, 0), (0, 0)])
+        pts = [(0, 0), (m2 * dx, m2 * dy), (t * dx + off[0], t * dy + off[1]), (R(300), R(300))]
+        a, b, c, d = _embed(rng, pts)
+    else:
+        if kind == 'rect_query':
+            x0 = R(6); x1 = x0 + 1 + rng.below(6); y0 = R(6); y1 = y0 + 1 + rng.below(6)
+            poly = [(x1, y0), (x1, y1), (x0, y1), (x0, y0)]
+        else:
+            # convex counter-clockwise quadrilateral around the origin (one vertex per quadrant side)
+            poly = [(1 + rng.below(6), -rng.below(6)), (rng.below(6), 1 + rng.below(6)),
+                    (-1 - rng.below(6), rng.below(6)), (-rng.below(6), -1 - rng.below(6))]
+        rot = rng.below(4)
+        poly = poly[rot:] + poly[:rot]
+        if rng.chance(1, 3):
+            poly = poly[::-1]
+        w = rng.below(4)
+        if w == 0:
+            qq = (R(8), R(8))
+        elif w == 1:   # on an edge (or its extension)
+            i = rng.below(4); p0, p1 = poly[i], poly[(i + 1) % 4]
+            t = rng.range(-1, 2)
+            qq = (p0[0] + t * (p1[0] - p0[0]), p0[1] + t * (p1[1] - p0[1]))
+            if t == 2: qq = ((p0[0] + p1[0]) // 2, (p0[1] + p1[1]) // 2)
+        elif w == 2:
+            qq = poly[rng.below(4)]
+        else:
+            qq = ((poly[0][0] + poly[2][0]) // 2, (poly[0][1] + poly[2][1]) // 2)
+        a, b, c, d, q = _embed(rng, poly + [qq])
+    if q is None:
+        q = ((a[0] + c[0]) // 2, (a[1] + c[1]) // 2)
+    return kind, [a, b, c, d, q]
+
+
+def random_stream(res, tier, cpp_exe, spec_exe, gen_exe):
+    """C++ vs spec deciders vs generated code on a seeded structured stream of integer tuples up to 2^20"""
+    count = 20000 if tier == 'quick' else 300000
+    rng = C.SplitMix64(C.get_seed()).fork()
+    kinds, rows = [], []
+    for _ in range(count):
+        k, pts = gen_tuple(rng)
+        kinds.append(k)
+        rows.append(pts)
+    assert all(abs(v) <= LIM for pts in rows for p in pts for v in p)
+    inp = ''.join(' '.join('%d %d' % p for p in pts) + '\n' for pts in rows)
+    rc, cpp_out, err, dt_cpp = C.sh([cpp_exe, 'rand'], timeout=900, input=inp)
+    if rc != 0:
+        res.violation({'what': 'harness c16_geom rand failed', 'rc': rc, 'stderr': err[-2000:]}, no_input=True)
+        return None, []
+    cpp = cpp_out.split('\n')[:count]
+    rc, spec_out, err, dt_spec = C.sh([spec_exe, 'rand'], timeout=1800, input=inp)
+    spec = spec_out.split('\n')[:count]
+    gen = None
+    if gen_exe is not None:
+        rc, gen_out, err, dt_gen = C.sh([gen_exe, 'rand'], timeout=1800, input=inp)
+        gen = gen_out.split('\n')[:count]
+
+    def case(i, what, field, impl, other, other_name):
+        a, b, c, d, q = rows[i]
+        return {'what': what, 'fn': field, 'kind': kinds[i], 'a': list(a), 'b': list(b), 'c': list(c), 'd': list(d),
+                'q': list(q), 'implementation': impl, other_name: other,
+                'replay': "echo '%s' | build/.../c16_geom rand   (harness/c16_geom.cpp rand mode; field '%s')"
+                          % (' '.join('%d %d' % p for p in rows[i]), field)}
+
+    def num_differs(x, y):
+        if x == '-' or y == '-':
+            return x != y
+        fx, fy = float(x), float(y)
+        return abs(fx - fy) > 1e-6 + 1e-9 * abs(fx)
+
+    def compare(other, other_name, what, limit):
+        out = []
+        if len(other) < count or len(cpp) < count:
+            out.append({'what': what + ': different number of result lines', 'cpp': len(cpp), other_name: len(other)})
+            return out
+        head = other[0].split()
+        pos = [k for k, ch in enumerate(head[0]) if ch != '?']
+        nums = [j for j in range(1, 6) if head[j] != '?']
+        for i in range(count):
+            lc, lo = cpp[i], other[i]
+            if lc == lo:
+                continue
+            fc, fo = lc.split(), lo.split()
+            dc, do = fc[0], fo[0]
+            bad = [k for k in pos if dc[k] != do[k]]
+            if bad:
+                out.append(case(i, what, RAND_POS[bad[0]], dc[bad[0]], do[bad[0]], other_name))
+            else:
+                badn = [j for j in nums if num_differs(fc[j], fo[j])]
+                if badn:
+                    out.append(case(i, what, RAND_NUM[badn[0] - 1], fc[badn[0]], fo[badn[0]], other_name))
+            if len(out) >= limit:
+                break
+        return out
+
+    spec_bad = compare(spec, 'exact_spec', 'compiled libavoid predicate disagrees with the exact-arithmetic spec decider '
+                                           '(random stream)', 3)
+    for v in spec_bad:
+        res.violation(v)
+    gen_bad = compare(gen, 'gen', 'compiled C++ vs extracted generated code (random stream)', 5) if gen is not None else []
+    hist = {'collinear_abc': 0, 'crossing': 0, 'touching': 0, 'collinear_overlap': 0, 'disjoint': 0, 'zero_length': 0,
+            'c_strictly_on_ab': 0, 'q_inside_convex': 0, 'q_on_border': 0, 'max_abs_coordinate': 0}
+    for i in range(min(count, len(cpp))):
+        f = cpp[i].split()
+        if not f:
+            continue
+        dc = f[0]
+        a, b, c, d, q = rows[i]
+        hist['collinear_abc'] += dc[0] == '0'
+        hist['crossing'] += dc[4] == '1'
+        hist['touching'] += dc[10] == '1' and dc[4] == '0'
+        hist['collinear_overlap'] += dc[10] == '3'
+        hist['disjoint'] += dc[10] == '0'
+        hist['zero_length'] += (a == b) or (c == d)
+        hist['c_strictly_on_ab'] += dc[1] == '1'
+        hist['q_inside_convex'] += dc[13] == '1'
+        hist['q_on_border'] += dc[16] == '1' and dc[13] == '0'
+    hist['max_abs_coordinate'] = max(abs(v) for pts in rows for p in pts for v in p)
+    kh = {}
+    for k in kinds:
+        kh[k] = kh.get(k, 0) + 1
+    info = {'tuples': count, 'seed': C.get_seed(), 'coordinate_bound': LIM, 'generator_kinds': kh, 'histogram': hist,
+            'fields_compared_with_spec': [RAND_POS[k] for k, ch in enumerate(spec[0].split()[0]) if ch != '?']
+                                         + [RAND_NUM[j - 1] for j in range(1, 6) if spec[0].split()[j] != '?'] if spec and spec[0] else [],
+            'spec_violations': len(spec_bad), 'gen_disagreements': gen_bad[:5],
+            'seconds': {'cpp': round(dt_cpp, 2), 'spec': round(dt_spec, 2)},
+            'samples': [{'kind': kinds[i], 'tuple': [list(p) for p in rows[i]], 'cpp': cpp[i]} for i in (0, count // 2, count - 1)]}
+    return info, gen_bad
 
 
 def run(tier):
@@ -90,9 +330,33 @@ def run(tier):
                          'replay': 'harness/c16_geom.cpp %d %d, section %s, index %d' % (G, GP, s, d)})
             res.violation(case)
             spec_viol += 1
+    masked_cov = {}
+    for s, cs in SPEC_MASKED_SECTIONS.items():
+        a, b = cpp[cs], spec.get(s, '')
+        defined = sum(1 for ch in b if ch != '?')
+        masked_cov[s] = {'defined': defined, 'of': len(a)}
+        evals += defined
+        d = 0 if len(a) != len(b) else next((i for i in range(len(a)) if b[i] != '?' and a[i] != b[i]), None)
+        if d is not None:
+            case = decode(cs, d, G, GP)
+            case.update({'implementation': a[d:d + 1], 'exact_spec': b[d:d + 1],
+                         'what': 'compiled %s disagrees with the closed-region spec (%s)' % (cs, s),
+                         'replay': 'harness/c16_geom.cpp %d %d, section %s, index %d' % (G, GP, cs, d)})
+            res.violation(case)
+            spec_viol += 1
+    for s in SPEC_NUMERIC_SECTIONS:
+        evals += len(cpp[s])
+        nd = numeric_diff(s, cpp[s], spec.get(s, []))
+        if nd is not None:
+            nd.update({'what': 'compiled %s disagrees with the exact-arithmetic spec (columns: point indices i j k l on the '
+                               '%dx%d grid, index = x*G+y; then x y)' % (s, G, G),
+                       'replay': 'harness/c16_geom.cpp %d %d, section %s' % (G, GP, s)})
+            res.violation(nd)
+            spec_viol += 1
     # generated-code side (translator validation)
     gen_ok = True
     gen_diffs = []
+    gen_exe = None
     try:
         gen_exe = C.ocaml_build('c16gen', 'C16gen.v', 'c16_gen_driver.ml', 'c16_gen.ml')
         rc, gen_out, err, dt = C.sh([gen_exe, str(G), str(GP)], timeout=900)
@@ -122,6 +386,13 @@ def run(tier):
     except RuntimeError as e:
         gen_ok = False
         gen_diffs.append({'what': 'generated code does not build', 'error': str(e)[-1500:]})
+    # random stream with larger integer coordinates (|v| <= 2^20): C++ vs spec (violations) and C++ vs gen
+    rinfo, rgen_bad = random_stream(res, tier, exe, spec_exe, gen_exe if gen_ok else None)
+    if rinfo is not None:
+        evals += rinfo['tuples'] * (len(rinfo['fields_compared_with_spec']) + (len(RAND_POS) + len(RAND_NUM) if gen_ok else 0))
+        spec_viol += rinfo['spec_violations']
+        gen_diffs.extend(rgen_bad)
+        res.cov['random_stream'] = rinfo
     for s in ('vecDir', 'segmentIntersect', 'inPoly3'):
         for idx in (7, len(cpp[s]) // 2 + 3):
             c = decode(s, idx, G, GP)
@@ -136,7 +407,7 @@ def run(tier):
                     'exhaustive': True, 'samples': samples,
                     'traces_validated_against_impl': evals,
                     'translator_validation': {'sections': sorted(cpp.keys()), 'disagreements': gen_diffs[:5]},
-                    'spec_comparison': {'sections': SPEC_SECTIONS, 'violations': spec_viol}})
+                    'spec_comparison': {'sections': SPEC_SECTIONS + SPEC_NUMERIC_SECTIONS + sorted(SPEC_MASKED_SECTIONS), 'masked': masked_cov, 'violations': spec_viol}})
     if spec_viol == 0 and (not info['ok'] or gen_diffs):
         # proof or correspondence broken, search (spec vs implementation on the grid) found nothing
         res.violation({'what': 'proof obligation or translator correspondence no longer checks; exhaustive grid search '
